@@ -10,11 +10,18 @@ C11 — property theorems.
     negation witness, by `decide`; `eq_old_wrong_on_vectors` is the `return false` half.
 * `HashRespectsEq c`: values with equal unfoldings hash alike: `hash_respects_eq` (sound `c`),
   `not_hash_respects_eq_old_*` (the three legacy defects K11c, K11d, K11e).
-* `eq_refl`; `eq_symm_partial`, `eq_trans_partial` (ONLY values without hash maps / sets); `keys_interchangeable` (a key is found iff it equals the stored key's unfolding).
-* collection laws for all inputs.
+* `eq_refl`, `eq_symm`, `eq_trans`, `eq_equivalence`: equal? is an equivalence relation, THROUGH hash maps and hash sets;
+  `built_guards` / `eq_equivalence_built`: the constructors (`mkSet` = `(hashset ..)`, `mkMap` = `(hash ..)`, the others)
+  establish every guard, so the equivalence holds for all values they build, no guard left.  NaN policy as theorems:
+  `nan_equal_nothing`, `container_equal_itself`.
+* `keys_interchangeable` (a key is found iff it equals the stored key's unfolding) and its composition with the map
+  operations: `keyed_map_*` — a hash map keyed by values (collections included) is a finite map modulo `equal?`.
+* collection laws for all inputs (reference model S = `Coll.*`), and `prim_refines`: the model P of the Rust primitives
+  (`Prim.lean`) answers every operation SEQUENCE as S does.
 Guards: `ListSigOK` (what is ASSUMED about list identities, see below), `WF` (acyclic: definitions mention earlier nodes only), `NoNaN` (a NaN is not `equal?` to
-itself — documented semantics, while an object holding one is identical to itself), `KeysDistinct`
-(the keys of a hash map are pairwise different, as in every real map).  All three are decidable.
+itself — documented semantics, while an object holding one is identical to itself), `KeysDistinct` / `MembersDistinct`
+(the keys of a hash map / the members of a hash set are pairwise different, as in every real map / set: proved of the
+constructors).  All are decidable; `Guards` bundles them.
 
 Identity of lists.  A node id stands for the pointer of a list's head cell, so "same identity ⇒ same
 value" is built into the representation (one id, one definition): the harness gives two real lists the
@@ -29,6 +36,7 @@ import SteelVerif.C11.LemmasColl
 import SteelVerif.C11.LemmasEquiv
 import SteelVerif.C11.LemmasConstruct
 import SteelVerif.C11.LemmasRefine
+import SteelVerif.C11.LemmasKeyed
 namespace SteelVerif.C11
 
 /-! ## equal? is structural -/
@@ -137,6 +145,44 @@ example : eqImpl Cfg.fixed witnessMap 9 9 = true :=
   eq_refl _ rfl _ _ (by decide) (by decide) (by decide) (by decide) (by decide)
 /-- the guard `NoNaN` is needed: a NaN is not `equal?` to itself -/
 example : eqImpl Cfg.fixed [.leaf (.flt 0x7ff8000000000000)] 0 0 = false := by decide
+
+/-- **NaN policy, part 1** (documented semantics, any configuration, any graph): a NaN is `equal?` to nothing, not even
+    to itself -/
+theorem nan_equal_nothing (c : Cfg) (g : Graph) (a b : Nat) (x : Nat) (ha : g.node a = .leaf (.flt x))
+    (hx : fIsNaN x = true) : eqImpl c g a b = false ∧ eqImpl c g b a = false := by
+  obtain ⟨f, hf⟩ : ∃ f, size g a + size g b = f + 1 := ⟨size g a + size g b - 1, by have := size_pos g a; omega⟩
+  obtain ⟨f', hf'⟩ : ∃ f, size g b + size g a = f + 1 := ⟨size g b + size g a - 1, by have := size_pos g a; omega⟩
+  unfold eqImpl topEq
+  dsimp only
+  rw [ha, hf, hf']
+  cases hb : g.node b with
+  | leaf y =>
+    cases y <;> simp [leafEqSpec, fEq, hx]
+  | _ => simp [loop, arm, ha, hb]
+
+/-- **NaN policy, part 2** (any configuration, ANY graph — cyclic or holding NaNs): a container is `equal?` to itself;
+    the pointer-equality short cut answers before anything is compared -/
+theorem container_equal_itself (c : Cfg) (g : Graph) (a : Nat) (ha : ∀ l, g.node a ≠ .leaf l) :
+    eqImpl c g a a = true := by
+  obtain ⟨f, hf⟩ : ∃ f, size g a + size g a = f + 1 := ⟨size g a + size g a - 1, by have := size_pos g a; omega⟩
+  unfold eqImpl topEq
+  dsimp only
+  rw [hf]
+  cases hn : g.node a with
+  | leaf l => exact absurd hn (ha l)
+  | _ => simp [loop, arm, hn]
+
+/-- non-vacuity: a list holding a NaN is `equal?` to itself and not to a separately built copy (whose unfolding is
+    "the same"): on values with NaN `equal?` is NOT structural — the documented exception, now stated; a vector that
+    contains itself (a cycle, outside `WF`) is `equal?` to itself -/
+example : eqImpl Cfg.fixed [.leaf (.flt 0x7ff8000000000000), .list [0] none, .list [0] none] 1 1 = true :=
+  container_equal_itself _ _ 1 (by intro l h; cases h)
+example : eqImpl Cfg.fixed [.leaf (.flt 0x7ff8000000000000), .list [0] none, .list [0] none] 1 2 = false := by decide
+example : eqImpl Cfg.fixed [.leaf (.flt 0x7ff8000000000000), .leaf (.flt 0x7ff8000000000000)] 0 1 = false :=
+  (nan_equal_nothing _ _ 0 1 _ rfl (by decide)).1
+example : ¬ WF [Node.mvec [0]] ∧ eqImpl Cfg.fixed [.mvec [0]] 0 0 = true :=
+  ⟨by decide, container_equal_itself _ _ 0 (by intro l h; cases h)⟩
+
 
 /-- **equal? is symmetric**, also THROUGH hash maps and hash sets.  `eqSpec` on maps/sets is what the code does
     ("same size and every LEFT entry is found on the right"); that this is symmetric is a counting argument
@@ -319,6 +365,154 @@ example : keyEqImpl Cfg.fixed witnessMap 2 3 = true :=
 example : keyEqImpl Cfg.fixed witnessMap 2 0 = false :=
   (keys_interchangeable _ rfl witnessMap 2 0 (by decide) (by decide) (by decide) (by decide) (by decide)).trans
     (by decide)
+
+/-! ## hash maps and hash sets keyed by values: finite maps whose keys are taken modulo `equal?`
+
+`gmGet` / `gmInsert` / `gmRemove` (Model.lean) are `HashMap::get/insert/remove` on an entry list with the key equality of
+the code (`keyEqImpl`: same hash and `==`); the keys are nodes of a value graph — numbers, strings, lists, vectors, sets,
+maps, with any sharing.  `KeysOK` is the representation invariant (stored keys pairwise non-`equal?`), established by
+the empty map and preserved by every operation. -/
+
+/-- on a graph that satisfies the guards the key equality of the code is an equivalence relation: it IS `eqSpec` -/
+theorem keyRel_of_guards {g : Graph} (h : Guards g) : KeyRel (· < g.length) (keyEqImpl Cfg.fixed g) := by
+  have hs : ∀ a b, a < g.length → keyEqImpl Cfg.fixed g a b = eqSpec g a b := fun a b ha =>
+    keyEq_fixed_spec h.wf h.nonan h.keys h.sig ha b
+  constructor
+  · intro a b ha hb
+    rw [hs a b ha, hs b a hb]
+    exact spec_symm_full h.wf h.keys h.members a b ha hb
+  · intro a b c ha hb hc h1 h2
+    rw [hs a b ha] at h1
+    rw [hs b c hb] at h2
+    rw [hs a c ha]
+    exact spec_trans_full h.wf h.keys h.members a b c ha hb hc h1 h2
+
+section Keyed
+variable {ν : Type}
+
+/-- **equal? keys are interchangeable** in a hash map however it was built: a lookup with `k'` answers what a lookup
+    with `k` answers whenever the two have equal unfoldings — keys that are themselves collections included -/
+theorem keyed_map_interchangeable {g : Graph} (h : Guards g) (es : List (Nat × ν))
+    (hes : KeysOK (· < g.length) (keyEqImpl Cfg.fixed g) es) (k k' : Nat) (hk : k < g.length) (hk' : k' < g.length)
+    (heq : eqSpec g k k' = true) :
+    gmGet (keyEqImpl Cfg.fixed g) es k = gmGet (keyEqImpl Cfg.fixed g) es k' :=
+  gmGet_congr (keyRel_of_guards h) hes hk hk'
+    (by rw [keyEq_fixed_spec h.wf h.nonan h.keys h.sig hk k']; exact heq)
+
+/-- `(hash-ref (hash-insert m k v) k')`: the new value exactly when `k'` is `equal?` to `k` -/
+theorem keyed_map_get_insert {g : Graph} (h : Guards g) (es : List (Nat × ν))
+    (hes : KeysOK (· < g.length) (keyEqImpl Cfg.fixed g) es) (k k' : Nat) (v : ν) (hk : k < g.length) (hk' : k' < g.length) :
+    gmGet (keyEqImpl Cfg.fixed g) (gmInsert (keyEqImpl Cfg.fixed g) es k v) k' =
+      if eqSpec g k' k = true then some v else gmGet (keyEqImpl Cfg.fixed g) es k' := by
+  rw [gmGet_insert (keyRel_of_guards h) hes v hk hk', keyEq_fixed_spec h.wf h.nonan h.keys h.sig hk' k]
+
+/-- `(hash-ref (hash-remove m k) k')` -/
+theorem keyed_map_get_remove {g : Graph} (h : Guards g) (es : List (Nat × ν))
+    (hes : KeysOK (· < g.length) (keyEqImpl Cfg.fixed g) es) (k k' : Nat) (hk : k < g.length) (hk' : k' < g.length) :
+    gmGet (keyEqImpl Cfg.fixed g) (gmRemove (keyEqImpl Cfg.fixed g) es k) k' =
+      if eqSpec g k' k = true then none else gmGet (keyEqImpl Cfg.fixed g) es k' := by
+  rw [gmGet_remove (keyRel_of_guards h) hes hk hk', keyEq_fixed_spec h.wf h.nonan h.keys h.sig hk' k]
+
+/-- `hash-length` after `hash-insert`: an `equal?` key is replaced, not added -/
+theorem keyed_map_length_insert {g : Graph} (h : Guards g) (es : List (Nat × ν))
+    (hes : KeysOK (· < g.length) (keyEqImpl Cfg.fixed g) es) (k : Nat) (v : ν) (hk : k < g.length) :
+    (gmInsert (keyEqImpl Cfg.fixed g) es k v).length =
+      if gmContains (keyEqImpl Cfg.fixed g) es k then es.length else es.length + 1 :=
+  gmInsert_length (keyRel_of_guards h) hes v hk
+
+/-- the invariant: true of the empty map, kept by `hash-insert` and `hash-remove` -/
+theorem keyed_map_invariant {g : Graph} (h : Guards g) (es : List (Nat × ν))
+    (hes : KeysOK (· < g.length) (keyEqImpl Cfg.fixed g) es) (k : Nat) (v : ν) (hk : k < g.length) :
+    KeysOK (· < g.length) (keyEqImpl Cfg.fixed g) ([] : List (Nat × ν)) ∧
+    KeysOK (· < g.length) (keyEqImpl Cfg.fixed g) (gmInsert (keyEqImpl Cfg.fixed g) es k v) ∧
+    KeysOK (· < g.length) (keyEqImpl Cfg.fixed g) (gmRemove (keyEqImpl Cfg.fixed g) es k) :=
+  ⟨keysOK_nil, keysOK_insert (keyRel_of_guards h) hes v hk, keysOK_remove hes k⟩
+
+/-- `(hash k1 v1 k2 v2 …)` IS the fold of `hash-insert`, and a lookup in it finds the value of the LAST argument key that is
+    `equal?` to the query (duplicate keys that are different objects included) -/
+theorem keyed_map_ofList_last_wins {g : Graph} (h : Guards g) (kvs : List (Nat × Nat))
+    (hks : ∀ e ∈ kvs, e.1 < g.length) (k : Nat) (hk : k < g.length) :
+    mkMap Cfg.fixed g kvs = .map (kvs.foldl (fun m e => gmInsert (keyEqImpl Cfg.fixed g) m e.1 e.2) []) ∧
+    gmGet (keyEqImpl Cfg.fixed g) (kvs.foldl (fun m e => gmInsert (keyEqImpl Cfg.fixed g) m e.1 e.2) []) k =
+      (kvs.reverse.find? fun e => eqSpec g k e.1).map Prod.snd := by
+  refine ⟨rfl, ?_⟩
+  rw [gmGet_foldl (keyRel_of_guards h) kvs [] keysOK_nil hks k hk]
+  have : (fun e : Nat × Nat => keyEqImpl Cfg.fixed g k e.1) = (fun e => eqSpec g k e.1) := by
+    funext e; exact keyEq_fixed_spec h.wf h.nonan h.keys h.sig hk e.1
+  rw [this]
+  cases kvs.reverse.find? (fun e => eqSpec g k e.1) <;> simp [gmGet]
+
+/-- `hash-union` of two maps keyed by values, as `imbl` computes it (the larger map mutated): left-biased modulo `equal?` -/
+theorem keyed_map_union {g : Graph} (h : Guards g) (l r : List (Nat × ν))
+    (hl : KeysOK (· < g.length) (keyEqImpl Cfg.fixed g) l) (hr : KeysOK (· < g.length) (keyEqImpl Cfg.fixed g) r)
+    (q : Nat) (hq : q < g.length) :
+    gmGet (keyEqImpl Cfg.fixed g) (gmUnion (keyEqImpl Cfg.fixed g) l r) q =
+      (match gmGet (keyEqImpl Cfg.fixed g) l q with
+       | some v => some v
+       | none => gmGet (keyEqImpl Cfg.fixed g) r q) ∧
+    KeysOK (· < g.length) (keyEqImpl Cfg.fixed g) (gmUnion (keyEqImpl Cfg.fixed g) l r) :=
+  gmUnion_laws (keyRel_of_guards h) hl hr hq
+
+/-- hash SETS keyed by values (`setInsertIds` = `HashSet::insert`, `xs.any (keyEq q)` = `HashSet::contains`):
+    `(hashset-contains? (hashset-insert s k) k')`, members `equal?` to each other are interchangeable, `hashset-length`
+    counts values modulo `equal?`, and the invariant (members pairwise non-`equal?`) holds of the empty set and is kept -/
+theorem keyed_set_laws {g : Graph} (h : Guards g) (xs : List Nat)
+    (hxs : MembersOK (· < g.length) (keyEqImpl Cfg.fixed g) xs) (k k' : Nat) (hk : k < g.length) (hk' : k' < g.length) :
+    ((setInsertIds (keyEqImpl Cfg.fixed g) xs k).any (keyEqImpl Cfg.fixed g k') =
+        (eqSpec g k' k || xs.any (keyEqImpl Cfg.fixed g k'))) ∧
+    (eqSpec g k k' = true → xs.any (keyEqImpl Cfg.fixed g k) = xs.any (keyEqImpl Cfg.fixed g k')) ∧
+    ((setInsertIds (keyEqImpl Cfg.fixed g) xs k).length =
+        if xs.any (keyEqImpl Cfg.fixed g k) then xs.length else xs.length + 1) ∧
+    MembersOK (· < g.length) (keyEqImpl Cfg.fixed g) [] ∧
+    MembersOK (· < g.length) (keyEqImpl Cfg.fixed g) (setInsertIds (keyEqImpl Cfg.fixed g) xs k) := by
+  have hr := keyRel_of_guards h
+  refine ⟨?_, ?_, gsInsert_length hr hxs hk, membersOK_nil, membersOK_insert hr hxs hk⟩
+  · rw [gsContains_insert hr hxs hk hk', keyEq_fixed_spec h.wf h.nonan h.keys h.sig hk' k]
+  · intro heq
+    exact gsContains_congr hr hxs hk hk' (by rw [keyEq_fixed_spec h.wf h.nonan h.keys h.sig hk k']; exact heq)
+
+/-- **the set algebra on members that are values** (collections included): `hashset-union`, `hashset-intersection`,
+    `hashset-difference` (the symmetric difference) as `imbl` computes them — the larger set mutated, members removed or
+    inserted one by one with the key equality of the code — have the membership functions of union, intersection and
+    symmetric difference MODULO `equal?`, keep the invariant, and `hashset-subset?` is inclusion of the membership functions -/
+theorem keyed_set_algebra {g : Graph} (h : Guards g) (a b : List Nat)
+    (ha : MembersOK (· < g.length) (keyEqImpl Cfg.fixed g) a) (hb : MembersOK (· < g.length) (keyEqImpl Cfg.fixed g) b)
+    (q : Nat) (hq : q < g.length) :
+    let r := keyEqImpl Cfg.fixed g
+    ((gsUnion r a b).any (r q) = (a.any (r q) || b.any (r q)) ∧ MembersOK (· < g.length) r (gsUnion r a b)) ∧
+    ((gsInter r a b).any (r q) = (a.any (r q) && b.any (r q)) ∧ MembersOK (· < g.length) r (gsInter r a b)) ∧
+    ((gsSymDiff r a b).any (r q) = (a.any (r q) != b.any (r q)) ∧ MembersOK (· < g.length) r (gsSymDiff r a b)) ∧
+    (gsSubset r a b = true ↔ ∀ q, q < g.length → a.any (r q) = true → b.any (r q) = true) := by
+  have hr := keyRel_of_guards h
+  have hrefl : ∀ x, x < g.length → keyEqImpl Cfg.fixed g x x = true := fun x hx => by
+    rw [keyEq_fixed_spec h.wf h.nonan h.keys h.sig hx x]
+    exact spec_refl h.wf h.nonan h.keys x hx
+  exact ⟨gsUnion_laws hr ha hb hq, gsInter_laws hr ha hb hq, gsSymDiff_laws hr ha hb hq, gsSubset_iff hr hrefl ha hb⟩
+
+end Keyed
+
+/-- non-vacuity (theorems applied): in `witnessMap` the lists 2 and 3 are two objects `(1 2)`; a value stored under one is
+    found under the other, and storing under the other replaces it -/
+example : gmGet (keyEqImpl Cfg.fixed witnessMap) (gmInsert (keyEqImpl Cfg.fixed witnessMap) [] 2 (7 : Int)) 3 = some 7 :=
+  (keyed_map_get_insert ⟨by decide, by decide, by decide, by decide, by decide⟩ [] keysOK_nil 2 3 7 (by decide) (by decide)).trans
+    (by decide)
+example : gmGet (keyEqImpl Cfg.fixed witnessMap)
+    ([(2, 0), (0, 1), (3, 1)].foldl (fun m e => gmInsert (keyEqImpl Cfg.fixed witnessMap) m e.1 e.2) []) 2 = some 1 :=
+  ((keyed_map_ofList_last_wins ⟨by decide, by decide, by decide, by decide, by decide⟩ [(2, 0), (0, 1), (3, 1)]
+    (by decide) 2 (by decide)).2).trans (by decide)
+/-- `{(1 2) ↦ 7}` ∪ `{(1 2)' ↦ 8, 1 ↦ 9}`: the larger RIGHT map is mutated and still the left value wins -/
+example : gmUnion (keyEqImpl Cfg.fixed witnessMap) [(2, (7 : Int))] [(3, 8), (0, 9)] = [(0, 9), (2, 7)] := by decide
+/-- `{(1 2)}` ∪ / ∩ / Δ `{(1 2)', 1}` with two different list objects `(1 2)`: one member / one member / the leaf only -/
+example : gsUnion (keyEqImpl Cfg.fixed witnessMap) [2] [3, 0] = [0, 2] ∧ gsInter (keyEqImpl Cfg.fixed witnessMap) [2] [3, 0] = [3] ∧
+    gsSymDiff (keyEqImpl Cfg.fixed witnessMap) [2] [3, 0] = [0] ∧ gsSubset (keyEqImpl Cfg.fixed witnessMap) [2] [3, 0] = true ∧
+    gsSubset (keyEqImpl Cfg.fixed witnessMap) [3, 0] [2] = false := by decide
+example : (setInsertIds (keyEqImpl Cfg.fixed witnessMap) [2] 3).length = 1 :=
+  ((keyed_set_laws ⟨by decide, by decide, by decide, by decide, by decide⟩ [2]
+    (membersOK_insert (keyRel_of_guards ⟨by decide, by decide, by decide, by decide, by decide⟩) membersOK_nil (by decide))
+    3 2 (by decide) (by decide)).2.2.1).trans (by decide)
+example : (gmInsert (keyEqImpl Cfg.fixed witnessMap) (gmInsert (keyEqImpl Cfg.fixed witnessMap) [] 2 (7 : Int)) 3 8).length = 1 ∧
+    gmGet (keyEqImpl Cfg.fixed witnessMap) (gmInsert (keyEqImpl Cfg.fixed witnessMap) (gmInsert (keyEqImpl Cfg.fixed witnessMap) [] 2 (7 : Int)) 3 8) 2
+      = some 8 := by decide
 
 /-! ## collections behave as finite maps, finite sets and sequences -/
 
@@ -585,6 +779,10 @@ example : runP witnessOps =
      .seq [1, 2], .err, .seq [1, 9], .err,
      .seq [0, 255], .err, .seq [0, 255, 7], .err,
      .str ['h', 'é', 'λ', '😀', 'x'], .str ['é', 'λ', '😀'], .chr '😀', .err, .str ['é', 'λ', '😀']] := by decide
+/-- immutable vectors: `take` / `drop` beyond the length are not errors (in either ownership branch), `set` at the length is -/
+example : runP [.iNew [1, 2, 3], .iTake true 5, .iTake false 5, .iDrop false 5, .iSet true 0 1, .iNew [1, 2], .iDrop true 5, .iNew [1, 2],
+      .iSet false 2 9, .iRest, .iRef 1] =
+    [.seq [1, 2, 3], .seq [1, 2, 3], .seq [1, 2, 3], .seq [], .err, .seq [1, 2], .seq [], .seq [1, 2], .err, .seq [2], .err] := by decide
 /-- the mathematical model gives the same answers, the unordered ones in another order -/
 example : runS witnessOps =
     [.map [(1, 30), (2, 20)], .map [(1, 30), (2, 20), (4, 40), (3, 30)], .int 30, .err, .int 4,
@@ -602,45 +800,60 @@ floats by bit pattern, booleans, characters, strings, symbols, void, rationals, 
 immutable and mutable vectors, structs, boxes, hash maps, hash sets), with arbitrary nesting and arbitrary
 sharing, without NaN, with pairwise different map keys and under the assumption `ListSigOK` about list
 identities, the model of the worklist `equal?` of the fixed configuration equals equality of the unfoldings
-(`eq_structural`); it is reflexive (`eq_refl`); symmetric and transitive on values WITHOUT hash maps/sets
-(`eq_symm_partial`, `eq_trans_partial`); values with equal unfoldings hash alike (`hash_respects_eq`) and are
-found as each other's keys (`keys_interchangeable`).  That the current code HAS the fixed configuration is
-`GenSound.code_cfg_sound` (a `decide` on the regenerated `codeCfg`).  (2) The REFERENCE models of the
-collections (association lists, duplicate-free lists, lists with integer indices) satisfy the laws of finite
-maps, finite sets and sequences, including boundary indices and duplicate keys.
+(`eq_structural`); it is an EQUIVALENCE RELATION, through hash maps and hash sets as well (`eq_refl`, `eq_symm`,
+`eq_trans`, `eq_equivalence`; the extra guard "set members pairwise different" is needed —
+`eq_symm_fails_without_distinct_members` — and is what the constructors establish: `built_guards`, so that on every
+graph BUILT by the constructors no guard is left, `eq_equivalence_built`); with NaN the two documented facts are theorems
+for every graph (`nan_equal_nothing`, `container_equal_itself`); values with equal unfoldings hash alike
+(`hash_respects_eq`), are found as each other's keys (`keys_interchangeable`) and are interchangeable in every
+operation of a hash map / hash set keyed by values, which is a finite map / set modulo `equal?`
+(`keyed_map_interchangeable`, `keyed_map_get_insert`, `keyed_map_get_remove`, `keyed_map_length_insert`,
+`keyed_map_invariant`, `keyed_map_ofList_last_wins`, `keyed_map_union`, `keyed_set_laws`, `keyed_set_algebra`).  That the current code
+HAS the fixed configuration is `GenSound.code_cfg_sound` (a `decide` on the regenerated `codeCfg`).
+(2) The model P of the Rust collection primitives (`Prim.lean`: argument conversions, bounds checks in the order of the
+code, the loops of `drop` / `append` / `range`, `last` through `len - 1`, `bounds` with byte offsets and its early
+comparison against the byte length, `imbl`'s size-directed `union`, `symmetric_difference`, `intersection`, `is_subset`,
+the four ownership branches of `hm_union`, the in-place and the copying branch of the immutable-vector updates,
+replace-on-insert) answers ANY operation sequence — errors at boundary indices
+included — as the mathematical model S does (`prim_refines`; per primitive: `hash_union_left_biased`,
+`substring_char_indices`, `string_ref_char_index`, `drop_is_list_tail`, `append_flatten`), and S satisfies the laws of finite
+maps, finite sets and sequences (`map_*`, `set_*`, `ref_*`, `take_tail`, `substring_spec`, `bytes_range`, `range_spec`,
+`keys_spec`, `subset_spec`, `last_append_singleton`, `reverse_append_laws`).  P is run against the real engine on every
+generated operation sequence by checks/c11.py (the driver executes `stepP` and `stepS` side by side).
 
-NOT carried by any theorem (covered only by the differential correspondence of checks/c11.py):
+NOT carried by any theorem (covered only by the differential correspondence of checks/c11.py, or not at all):
 
- * **"equal? is an equivalence relation" through hash maps and hash sets**: symmetry and transitivity are
-   proved only under `NoHashed` (see `eq_symm_partial`); the guards lack "set members are pairwise different",
-   without which symmetry is false in the model (`eq_symm_fails_without_distinct_members`).
- * **NaN**: every theorem about `equal?` assumes `NoNaN` (a NaN is not `equal?` to itself — documented
-   semantics; but also a list CONTAINING a NaN is outside every theorem).
+ * **Below the primitives**: the HAMT of `imbl` (P takes `HashMap::insert/get/remove` as operations on an entry list in an
+   unspecified order), the unrolled cells of `im-lists` (P takes a list as a sequence; the defects K11h/K11i/K11j lived in
+   the cell structure and are regression cases of the corpus and of the `lx` stream, not theorems), the UTF-8 encoding
+   itself (a string is a `List Char`, byte offsets are sums of `Char.utf8Size`; that slicing a real `str` at those offsets
+   yields those characters is the correspondence), `Vec` and its growth.
+ * **Operation sequences whose ELEMENTS are collections** go through two separate theorems: `prim_refines` has integer keys
+   and elements, `keyed_map_*` / `keyed_set_laws` / `keyed_set_algebra` have graph keys and state the LAWS of the finite map /
+   set modulo `equal?` operation by operation; one refinement theorem for a register language over graph values (a
+   quotient construction) is not stated.
+ * **Primitives outside `Op`**: `list-ref` on improper pairs, `cons`/`car`/`cdr` on pairs, `list->vector`, `vector-fill!`,
+   `vector-copy!`, `make-vector`, `subvector`, `bytes-copy` ranges, `string-ref` on mutable strings, `hash->list` order,
+   `hashset->vector`, `vector-push-front`, `vector-swap!`, `mutable-vector-pop!`, … are neither in P nor in the generated sequences.
+ * **Aliasing**: a register holds a VALUE; that the in-place branch of a primitive (`Gc::get_mut` succeeds) is only taken when
+   no other holder can observe the update is C03's property, not stated here (P has both branches of `hm_union` and of
+   the immutable-vector updates and proves them equal; the run exercises both through owned copies / live globals).
  * **Cyclic values** (built by mutation of boxes / mutable vectors / mutable struct fields): `WF` demands an
-   acyclic graph; the cycle protection of the visited set, which is what the set exists for, is not verified
-   (C18 looks at termination only).
+   acyclic graph; of the cycle protection of the visited set only the self-comparison short cut is a theorem
+   (`container_equal_itself`); C18 looks at termination only.
+ * **Values with NaN**: `eq_structural` and the equivalence assume `NoNaN`; what `equal?` does on two DIFFERENT containers
+   that hold NaNs is determined by the model (answered `false` at the NaN) but no specification other than the two policy
+   theorems is stated.
  * **The other value kinds** ("all value kinds", 36 of them): closures, built-in and boxed functions, ports,
    continuations, streams, futures, syntax objects, opaque/custom Rust values, complex numbers, mutable vs
    immutable strings, … have no `Leaf`/`Node` constructor (`Cfg.armComplex`, `Cfg.armBoxedFunction` are fields
-   without a value kind to act on).
+   without a value kind to act on); corpus cases only.
  * **`eq?` and `eqv?`** and numeric `=`: no model, no theorem.
  * **`ListSigOK`** (lists whose first nodes share storage, index and next pointer have the same elements) and
-   "one head cell, one node id" are ASSUMPTIONS about im-lists, checked on the graphs the harness builds.
+   "one head cell, one node id" are ASSUMPTIONS about im-lists, checked on the graphs the harness builds; `Built` graphs
+   use lists without a shared-storage signature.
  * **The hash function itself**: `hashEq` is "feeds the hasher the same stream"; 64-bit collisions, the
-   `Hasher`, and the HAMT (`im`/`imbl`) lookup that `keys_interchangeable` abstracts as "same hash and `==`"
-   are not modelled.
- * **Collections — there is no model M of the Rust primitives**: the theorems of the last section are laws of
-   the reference S (`Coll.*`); that `hash-insert`, `hash-ref`, `hashset-*`, `list-ref`, `vector-set!`,
-   `substring`, `bytes-set!`, … of the real engine behave as S on operation SEQUENCES is the correspondence only.
-   No law is stated for `append`, `reverse`, `range`, `last`, `hash-keys->list`, `hash-values->list`,
-   `hashset-subset?`, `hashset-remove`, `string-append`, `string->list`, `list->string`, `vector-append`,
-   `bytes-append`, `hash-clear`, `cons`/`car`/`cdr` on improper pairs (the definitions `lLast`, `mKeys`,
-   `mValues`, `sSubset`, `sRemove` are used by the driver only).  `first_rest` restates the definition.
- * **Keys that are themselves collections** inside the collection laws: the laws are generic in a key type with
-   decidable equality; the link "Steel key equality = `eqSpec`" is `keys_interchangeable`, the composition of
-   the two (a finite map keyed by graphs modulo `eqSpec`) is not stated as a theorem.
- * **Strings with arbitrary Unicode**: `strSub`/`strRef` index a `List Char`; byte offsets / UTF-8 boundaries of
-   the real `substring` are not modelled.
+   `Hasher`, and the HAMT lookup that `keyEqImpl` abstracts as "same hash and `==`" are not modelled.
 -/
 
 end SteelVerif.C11
